@@ -370,6 +370,86 @@ func classMsgs(cf Cfg) []Msg {
 	}
 }
 
+// ---------------------------------------------------------------- two connections interleaved
+
+// twoConnections: connection A's second message is only partly read when connection B's message is read completely,
+// then A's message is finished (shared per-process resources such as pooled flate readers must not be handed to both).
+func twoConnections(c *hl.Ctx) {
+	idx := 0
+	sizes := []int{0, 1, 200, 5000}
+	for _, comp := range []int{1, 0} {
+		for _, srv := range []bool{true, false} {
+			for _, a1 := range sizes {
+				for _, a2 := range sizes {
+					for _, b1 := range sizes {
+						for _, part := range []int{0, 1, -1} { // bytes of A's second message read before B's message; -1 = half
+							idx++
+							if !c.Mine(idx) {
+								continue
+							}
+							c.Eval()
+							c.Add("traces_validated_against_impl", 1)
+							c.Add("transitions", 3)
+							cf := Cfg{SenderServer: srv, Comp: comp, Level: 1, W: 512, RBuf: 128}
+							cs := map[string]interface{}{"part": "two-connections", "cfg": cf, "sizes": []int{a1, a2, b1}, "partial": part}
+							desc := fmt.Sprintf("two connections (config %+v): A sends %d and %d bytes, B sends %d bytes; A's second message is read for %d bytes, then B's message completely, then the rest of A's", cf, a1, a2, b1, part)
+							key := ""
+							what := ""
+							pn, pmsg, st := hl.TryStack(func() {
+								sa, ra, _, _ := mkPair(cf)
+								sb, rb, _, _ := mkPair(cf)
+								mA1, mA2, mB1 := Msg{Binary: true, Size: a1, API: "WriteMessage"}, Msg{Binary: true, Size: a2, API: "WriteMessage"}, Msg{Binary: true, Size: b1, API: "WriteMessage"}
+								if sendOne(sa, mA1, 0) != nil || sendOne(sa, mA2, 1) != nil || sendOne(sb, mB1, 2) != nil {
+									key, what = "two-connections/send-error", desc
+									return
+								}
+								if _, got, err := ra.ReadMessage(); err != nil || !bytes.Equal(got, payloadOf(mA1, 0)) {
+									key, what = "two-connections/first-message", fmt.Sprintf("A's first message: err=%v; %s", err, desc)
+									return
+								}
+								_, r2, err := ra.NextReader()
+								if err != nil {
+									key, what = "two-connections/next-reader", fmt.Sprintf("%v; %s", err, desc)
+									return
+								}
+								k := part
+								if k < 0 {
+									k = a2 / 2
+								}
+								if k > a2 {
+									k = a2
+								}
+								head := make([]byte, k)
+								if _, err := io.ReadFull(r2, head); err != nil {
+									key, what = "two-connections/partial-read", fmt.Sprintf("%v; %s", err, desc)
+									return
+								}
+								if _, got, err := rb.ReadMessage(); err != nil || !bytes.Equal(got, payloadOf(mB1, 2)) {
+									key, what = "two-connections/other-connection-message", fmt.Sprintf("B's message: err=%v, %d bytes; %s", err, len(got), desc)
+									return
+								}
+								rest, err := io.ReadAll(r2)
+								if err != nil || !bytes.Equal(append(head, rest...), payloadOf(mA2, 1)) {
+									key, what = "two-connections/interleaved-message-corrupt", fmt.Sprintf("A's second message after the interleaved read on B: err=%v, %d bytes (want %d); %s", err, len(head)+len(rest), a2, desc)
+									return
+								}
+							})
+							if pn {
+								key, what = "panic/"+hl.PanicSite(st), pmsg+"; "+desc
+							}
+							if key != "" {
+								c.Violation(key, what, cs)
+							} else {
+								c.Nontrivial(desc)
+							}
+						}
+					}
+				}
+			}
+		}
+	}
+}
+
 // ---------------------------------------------------------------- handshake sessions
 
 type pipeListener struct {
@@ -654,6 +734,7 @@ func run(c *hl.Ctx) {
 			}
 		}
 	}
+	twoConnections(c)
 	handshakeSessions(c)
 }
 
